@@ -135,11 +135,13 @@ struct Tracker {
     k_nonaddr: bool,
     k_inserted: bool,
     domain_ok: bool,
+    /// known-class failures already reported for this history (at most two per class and kind are recorded)
+    reported: std::cell::RefCell<BTreeMap<(String, &'static str), u32>>,
 }
 
 impl Tracker {
     fn new() -> Self {
-        Tracker { expect: BTreeMap::new(), taint: BTreeMap::new(), ops: vec![], ops_in_model: true, k_nonaddr: false, k_inserted: false, domain_ok: true }
+        Tracker { expect: BTreeMap::new(), taint: BTreeMap::new(), ops: vec![], ops_in_model: true, k_nonaddr: false, k_inserted: false, domain_ok: true, reported: Default::default() }
     }
 
     /// Update the expectation, the taint and the class flags for version v.
@@ -220,6 +222,17 @@ impl Tracker {
         }
     }
 
+    fn report_known(&self, sink: &mut Sink, kind: &str, cls: &'static str, what: &str, case: serde_json::Value) {
+        let mut m = self.reported.borrow_mut();
+        let n = m.entry((kind.to_string(), cls)).or_insert(0);
+        *n += 1;
+        if *n <= 2 {
+            sink.oracle_fail(Some(cls), what, case);
+        } else {
+            sink.count(&format!("e2e:known-failures-not-recorded:{cls}"));
+        }
+    }
+
     /// Direct oracle: scanned version columns == content ledger (created_at excused for tainted rows).
     fn check_columns(&self, h: &Hist, v: u64, sink: &mut Sink) {
         let snap = &h.vers[&v];
@@ -248,7 +261,7 @@ impl Tracker {
             sink.oracle_ok();
         }
         for (cls, j) in known {
-            sink.oracle_fail(Some(cls), "a row's _row_created_at_version is not the version that first inserted its row id", json!({"history": h.describe(), "version": v, "row": j}));
+            self.report_known(sink, "columns", cls, "a row's _row_created_at_version is not the version that first inserted its row id", json!({"history": h.describe(), "version": v, "row": j}));
         }
         if !unlisted.is_empty() {
             sink.oracle_fail(None, "version columns of a scan differ from the versions in which the row was inserted / last changed", json!({"history": h.describe(), "version": v, "rows": unlisted.iter().take(4).collect::<Vec<_>>()}));
@@ -267,11 +280,11 @@ async fn check_delta(h: &Hist, tr: &Tracker, s17: &mut S17, rng: &mut Rng, sink:
             pairs.push((b, en));
         }
     }
-    if pairs.len() > 8 {
+    if pairs.len() > 5 {
         let mut pick = vec![];
         pick.push((v - 1, v));
         pick.push((0, v));
-        for _ in 0..6 {
+        for _ in 0..3 {
             pick.push(*rng.pick(&pairs));
         }
         pick.sort();
@@ -289,6 +302,12 @@ async fn check_delta(h: &Hist, tr: &Tracker, s17: &mut S17, rng: &mut Rng, sink:
         .await;
         let (ins, upd) = match res {
             Ok(x) => x,
+            Err((_, msg)) if is_f18(&msg) => {
+                // unrelated known defect (RowIdIndex::new debug assertion, DESIGN section 6 F18): the filtered scan
+                // takes rows through the row id index
+                sink.count("e2e:delta-skipped:rowid-index-assertion(F18)");
+                continue;
+            }
             Err((_, msg)) => {
                 sink.oracle_fail(None, &format!("DatasetDelta({b},{en}) failed: {msg}"), json!({"history": h.describe(), "version": v}));
                 continue;
@@ -326,7 +345,7 @@ async fn check_delta(h: &Hist, tr: &Tracker, s17: &mut S17, rng: &mut Rng, sink:
             cl.sort();
             cl.dedup();
             for c in cl {
-                sink.oracle_fail(Some(c), "DatasetDelta inserted/updated rows differ from the rows inserted / updated-but-not-inserted in that version range", case.clone());
+                tr.report_known(sink, "delta", c, "DatasetDelta inserted/updated rows differ from the rows inserted / updated-but-not-inserted in that version range", case.clone());
             }
         } else {
             sink.oracle_fail(None, "DatasetDelta inserted/updated rows differ from the rows inserted / updated-but-not-inserted in that version range", case);
@@ -502,7 +521,7 @@ pub fn run(args: &Args) -> i32 {
             let len = steps.len();
             run_history(&mut rng, &mut sink, &mut st, &mut s17, n0, mrpf, Some(steps), len, &format!("corpus:{name}")).await;
         }
-        for _ in 0..args.vol(30, 400) {
+        for _ in 0..args.vol(26, 400) {
             // a third of the tables start as one fragment whose row ids are addresses (outside the classes
             // until rows move); the others are multi-fragment from the start
             let mrpf = if rng.chance(1, 3) { 100 } else { *rng.pick(&[2usize, 3, 5]) };
